@@ -8,6 +8,7 @@ MAP = "generated map-entry decoding assumes exactly one key followed by exactly 
 MERGE = "a singular message field that occurs more than once on the wire replaces the earlier occurrence instead of being merged with it as the reference runtime does (generated Unmarshal always allocates a new sub-message and its Unmarshal starts with Reset: needs a design decision)"
 REPEXT = "REPEATED proto2 extensions are not supported by the generated extension snippets (scalar type assertion / SetExtension of a single element): Size/Marshal panic, Unmarshal errors or panics"
 FILEEXT = "extensions declared at FILE scope are invisible to the generator's getExtensions: not sized/written by generated Marshal and left in the unknown fields by generated Unmarshal"
+STALE = "generated Size() returns any positive cached size without ever invalidating it, so after a Size/Marshal call a mutation of the message (or of a nested message only) makes every later Size/Marshal/MarshalTo - also through csproto and through the owning runtime, which call the generated methods - use the stale size: truncated or zero-padded output, or an index-out-of-range panic (e.g. history a=1, Size(), a=300, Marshal()). Repair = recompute in Size() or a different caching design: performance trade-off for the maintainers"
 out = []
 for line in sys.stdin:
     m = re.match(r"violation-class sig=(\S+) cases=", line)
@@ -23,6 +24,7 @@ for line in sys.stdin:
     elif sig.endswith("/map-entry-shape"): why = MERGE + " (here: a message-typed map value occurring twice inside one map entry)"
     elif sig.endswith("/message-merge"): why = MERGE
     elif sig.endswith("/unsupported-extension-shape"): why = REPEXT + " / " + FILEEXT
+    elif sig.endswith("/stale-size-cache-after-mutation"): why = STALE
     if why is None:
         print("UNTRIAGED:", sig, file=sys.stderr)
         continue
